@@ -330,6 +330,6 @@ pub fn arb_case(p: TreeParams) -> BoxedStrategy<Case> {
 
 fn run(ctx: &mut Ctx) {
     let cases = ctx.share(ctx.tier.pick(100_000, 1_000_000));
-    let p = ctx.tier.pick(TreeParams::quick(), TreeParams::thorough());
+    let p = ctx.tier.pick(TreeParams::quick().with_big(1), TreeParams::thorough().with_big(2));
     run_strategy(ctx, "C11", "functions", cases, arb_case(p), check);
 }
